@@ -22,7 +22,7 @@ META = dict(
                  'monitoring cap of 300/600 steps: capped runs have no verdict and are skipped (counted)'],
     min_events={'quick': {'open_branches_checked': 3000, 'branch_nodes_evaluated': 20000, 'logics': 52, 'library_countermodel_tests': 2000},
                 'thorough': {'open_branches_checked': 40000, 'branch_nodes_evaluated': 300000, 'logics': 52}},
-    budget=dict(quick=1500, thorough=3000),
+    budget=dict(quick=1500, thorough=7200),
     unit_timeout=dict(quick=900, thorough=3000),
 )
 
